@@ -76,7 +76,7 @@ class Unit:
         pre = ""
         if f.ctor:
             pre = self.render_ctor_init(f, d["init"], fired)
-        elif d["init"]:
+        elif d["init"] and not getattr(f, "custom_init", False):
             raise ExtractionError("%s: unexpected mem-initialiser list" % f.name)
         text = pre + body
         text = apply_rules(text, f.pre, fired)
@@ -95,6 +95,8 @@ class Unit:
         cleanup = ""
         if f.ctor and not fired.get("ctor.delegating") and f.ctor in self.ctor_cleanup:
             cleanup = self.ctor_cleanup[f.ctor]
+        if getattr(f, "cleanup", None):
+            cleanup = f.cleanup
         # rule D2': an exception leaving a noexcept function calls std::terminate
         is_noexcept = "noexcept" in d["quals"] or re.search(r"\bnoexcept\b", d["header"]) is not None
         f.is_noexcept = is_noexcept
